@@ -114,6 +114,8 @@ package openid
 //@   ensures [C13.token-only-when-requested] !old(applies) ==> err == nil && (forall k string :: (k in resp.GetParameters()) == old(k in resp.GetParameters())) && ar.GetDefaultResponseMode() == old(ar.GetDefaultResponseMode())
 //@   ensures ar.GetResponseTypes() == old(ar.GetResponseTypes()) && (old(ar.GetResponseMode()) != fosite.ResponseModeDefault ==> ar.GetResponseMode() == old(ar.GetResponseMode())) && resp.GetParameters() == old(resp.GetParameters())
 //@   invariant loop#1 [C13.tokens-imply-fragment-default] ar.GetDefaultResponseMode() == fosite.ResponseModeFragment && ar.GetResponseTypes() == pre(ar.GetResponseTypes()) && resp.GetParameters() == pre(resp.GetParameters())
+//@   invariant loop#1 [C12.authorize-endpoint-scope-confined] $i <= len(ar.GetRequestedScopes()) && (forall j int :: 0 <= j && j < $i ==> call(c.Config.GetScopeStrategy(ctx), client.GetScopes(), ar.GetRequestedScopes()[j])) && client == ar.GetClient()
+//@   ensures [C12.authorize-endpoint-scope-confined] err == nil && old(applies) ==> old((forall j int :: 0 <= j && j < len(ar.GetRequestedScopes()) ==> call(c.Config.GetScopeStrategy(ctx), ar.GetClient().GetScopes(), ar.GetRequestedScopes()[j])))
 
 //@ func (*OpenIDConnectHybridHandler).HandleAuthorizeEndpointRequest
 //@   let inv = tokparams(resp.GetParameters()) ==> (ar.GetDefaultResponseMode() == fosite.ResponseModeFragment && !ar.GetResponseTypes().ExactOne("code"))
@@ -131,6 +133,8 @@ package openid
 //@   ensures [C13.token-only-when-requested] !old(applies) ==> err == nil && (forall k string :: (k in resp.GetParameters()) == old(k in resp.GetParameters())) && ar.GetDefaultResponseMode() == old(ar.GetDefaultResponseMode())
 //@   ensures ar.GetResponseTypes() == old(ar.GetResponseTypes()) && (old(ar.GetResponseMode()) != fosite.ResponseModeDefault ==> ar.GetResponseMode() == old(ar.GetResponseMode())) && resp.GetParameters() == old(resp.GetParameters())
 //@   invariant loop#1 [C13.tokens-imply-fragment-default] ar.GetDefaultResponseMode() == fosite.ResponseModeFragment && ar.GetResponseTypes() == pre(ar.GetResponseTypes()) && resp.GetParameters() == pre(resp.GetParameters())
+//@   invariant loop#1 [C12.authorize-endpoint-scope-confined] $i <= len(ar.GetRequestedScopes()) && (forall j int :: 0 <= j && j < $i ==> call(c.Config.GetScopeStrategy(ctx), client.GetScopes(), ar.GetRequestedScopes()[j])) && client == ar.GetClient()
+//@   ensures [C12.authorize-endpoint-scope-confined] err == nil && old(applies) ==> old((forall j int :: 0 <= j && j < len(ar.GetRequestedScopes()) ==> call(c.Config.GetScopeStrategy(ctx), ar.GetClient().GetScopes(), ar.GetRequestedScopes()[j])))
 // Known finding (see /verif/known_findings.json): the hybrid handler asks for the implicit grant only when an access
 // token is requested; "code id_token" delivers an ID token from the authorization endpoint to a client without it.
 
